@@ -156,6 +156,26 @@ if __name__ == "__main__":
                 pass                   # rejected (range violations are reported as ValueError by Device.validate_parameters)
             except Exception as e:
                 bad(f"a source with {what} raised {type(e).__name__} instead of a circuit / value error: {str(e)[:120]}")
+        # ---- array-valued parameters (time-domain devices) against unions of allowed ranges / discrete levels
+        spec3 = {"target": "mockTD", "layout": None, "modes": 2, "compiler": ["TD2"],
+                 "gate_parameters": {"s": [0, 0.5643, 1.0], "bs": [[0, 0.6], [1.0, 1.6]]}}
+        dev3 = sf.Device(spec=spec3)
+        allowed = {"s": lambda v: any(abs(v - a) < 1e-4 for a in (0, 0.5643, 1.0)),
+                   "bs": lambda v: (-1e-4 <= v <= 0.6 + 1e-4) or (1.0 - 1e-4 <= v <= 1.6 + 1e-4)}
+        grid = {"s": [0, 0.3, 0.5643, 1.0, 1.2], "bs": [-0.4, 0.1, 0.8, 1.2, 1.9]}
+        for name in ("s", "bs"):
+            for arr in itertools.product(grid[name], repeat=3):
+                for shape in ("flat", "nested"):
+                    EVAL[0] += 1
+                    val = list(arr) if shape == "flat" else [[arr[0], arr[1]], [arr[2]]]
+                    want = all(allowed[name](v) for v in arr)
+                    try:
+                        dev3.validate_parameters(**{name: val})
+                        got = True
+                    except ValueError:
+                        got = False
+                    if got != want:
+                        bad(f"Device.validate_parameters({name}={val}) {'accepted' if got else 'rejected'} the array; allowed values are {spec3['gate_parameters'][name]}")
         # ---- measurement limits (device.modes as a dictionary)
         spec2 = dict(SPEC, modes={"pnr_max": 2, "homodyne_max": 1, "heterodyne_max": 1})
         spec2["layout"] = None
